@@ -21,6 +21,10 @@ func main() {
 	dump := flag.String("dump", "", "developer aid: print the FoIR normal forms of the functions of a module directory (e.g. fc)")
 	dumpFn := flag.String("fn", "", "with -dump: only this function")
 	flag.Parse()
+	if *dump != "" && *dumpFn == "HWDIGESTS" {
+		rules.DumpHandWrittenDigests(core.NewRepo(*repo))
+		return
+	}
 	if *dump != "" && *dumpFn == "NFDIGESTS" {
 		rules.DumpNFDigests(core.NewRepo(*repo))
 		return
